@@ -144,6 +144,7 @@ fn slot_type() -> u16 {
 fn any_wire<const L: usize>(block_mi: bool) -> Wire<L> {
     let mut buf: [u8; L] = kani::any();
     put_header(&mut buf, (L - 20) as u16);
+    concrete_type(&mut buf);
     let (types, offs, lens) = if L == 36 {
         ([slot_type(), slot_type()], [20usize, 28], [4u8, 4])
     } else {
